@@ -55,3 +55,32 @@ From WaxProofs Require Import ZomFacts.
 Theorem C06_parser_never_puts_two_zero_or_more_wildcards_together : forall e t, parse e = ParseOk t -> zom_ok t = true.
 Proof. exact parse_no_adjacent_zom. Qed.
 Print Assumptions C06_parser_never_puts_two_zero_or_more_wildcards_together.
+
+From WaxModel Require Import Regex Spec Query Glob.
+From WaxProofs Require Import SpecFacts DepthTreeFacts DepthAltFacts RuleAdjFacts ParseShape.
+
+(* the boundary rule over *expansions*: for globs without repetitions the rule checker is sound however the alternations nest - if the
+   check passes, no expansion of the tree (no choice of branches) has two adjacent boundaries (separators or tree wildcards).  The
+   breadth-first branch check is characterised declaratively (every item the queue can reach is processed without error:
+   C06_every_reachable_item_is_checked), then an induction over the tree carries the outer context - the deep left and right
+   neighbours that nested branches inherit - through the alternations *)
+Theorem C06_passing_globs_have_no_adjacent_boundaries_in_any_expansion : forall t,
+  check t = Ok None -> shp t = true -> nonempty_branches t = true -> forall x, Expands t x -> chain_ok false x = true.
+Proof. exact check_no_adjacent_boundaries. Qed.
+Print Assumptions C06_passing_globs_have_no_adjacent_boundaries_in_any_expansion.
+
+Theorem C06_built_globs_without_repetitions_have_no_adjacent_boundaries : forall e t r,
+  build e = BuildOk t r -> rep_free t = true -> forall x, Expands t x -> chain_ok false x = true.
+Proof. exact built_no_adjacent_boundaries. Qed.
+Print Assumptions C06_built_globs_without_repetitions_have_no_adjacent_boundaries.
+
+Theorem C06_every_reachable_item_is_checked : forall t, check t = Ok None ->
+  forall d, reach (outer_default, t) d -> fst (branch_item d) = None.
+Proof. exact check_item_ok. Qed.
+Print Assumptions C06_every_reachable_item_is_checked.
+
+(* every parsed tree has the shape the branch rules assume: members of a concatenation are never concatenations, branches and
+   repetition bodies always are *)
+Theorem C06_parsed_trees_are_shaped : forall e t, parse e = ParseOk t -> sh t.
+Proof. exact parse_sh. Qed.
+Print Assumptions C06_parsed_trees_are_shaped.
